@@ -130,7 +130,7 @@ def absorb(res, pid, trace, hrc, hout, orc, oout, max_detail=5):
                     continue
                 seen_case_mis.add(key)
                 if len(res.mismatches) + len(res.propfails) < 40:
-                    rec["replay_text"] = case_text(trace, m.group(1), int(m.group(2)))
+                    rec["replay_text"] = "# " + l[:3000] + "\n" + case_text(trace, m.group(1), int(m.group(2)) if pid != "C05" else None)[:200000]
             (res.mismatches if l.startswith("MISMATCH") else res.propfails).append(rec)
         elif l.startswith("SUMMARY "):
             kv = dict(x.split("=", 1) for x in l.split()[1:] if "=" in x)
@@ -254,4 +254,22 @@ def c02(ctx):
                  as_propfail=True, extra_args=("-readers",))
 
 
-PLUGINS = {"C02": c02, "C06": c06, "C10": c10, "C05": c05, "C09": c09, "C04": c04, "C07": c07, "C12": c12}
+def c11(ctx):
+    """C11 meta damage: base files from random histories (5 page sizes, both backends, freelist-sync on/off) whose last write activity is a successful commit; on copies:
+    single-byte damage at every position of both meta structures (quick: 4 replacement values per position, thorough: all 255), every prefix/suffix/field-wise partial overwrite of the
+    older slot by a would-be newer meta, both damaged, truncations, random non-databases; the real Open (deadline, panic recovery, child process for files with missing data pages)
+    vs Layout.open_model + the decoder's content of the surviving meta vs the API dump recorded when that version was committed."""
+    res = Result()
+    res.rule = ("one case = one base file and all its damaged copies; distinct by MD5 of the base file; non-trivial if at least one damaged copy exercised fallback, rejection, truncation or a completely "
+                "persisted in-flight meta; evaluations = number of Open calls compared")
+    with ctx:
+        if ctx.tier == "quick":
+            runs = run_sharded(ctx, "c11", 8, lambda i: ["-seed", str(ctx.seed * 100 + i), "-dir", "{dir}"] + (["-n", "1", "-full"] if i == 0 else ["-n", "6"]), 900)
+        else:
+            runs = run_sharded(ctx, "c11", 16, lambda i: ["-seed", str(ctx.seed * 100 + i), "-n", "5", "-dir", "{dir}", "-full"], ctx.budget_s or 3000)
+        for r in runs:
+            absorb(res, "C11", *r)
+    return res
+
+
+PLUGINS = {"C11": c11, "C02": c02, "C06": c06, "C10": c10, "C05": c05, "C09": c09, "C04": c04, "C07": c07, "C12": c12}
